@@ -133,9 +133,9 @@ func (pj *dtProj) drawingTok(d *Node, pc dtPartCtx) string {
 		toks = append(toks, tok)
 	}
 	if len(toks) == 0 {
-		return "drawing:none"
+		return "none"
 	}
-	return "drawing:" + strings.Join(toks, "+")
+	return strings.Join(toks, "+")
 }
 
 func (pj *dtProj) para(p *Node, pc dtPartCtx) dtM {
